@@ -681,3 +681,27 @@ def c09(tier, seed):
     simple_validate("C09", v, scs, "all", "Trace_Dash", sigfn=stroke_sig, timeout=3000)
     v.samples = [scs[0], scs[-1]]
     return v.finish()
+
+
+@prop("C08")
+def c08(tier, seed):
+    v = Verdicts("C08", tier, seed)
+    th = tier == "thorough"
+    v.rule = ("Gen_Curve: paths of up to NOPS ops mixing MoveTo/LineTo/QuadTo/CubicTo/Close with control points from an 8-point "
+              "half-pixel menu (loops, cusps, off-surface points; curve as first op, after MoveTo, directly after Close), both winding rules, "
+              "fill and clip route, 8 dyadic transforms (translations, scale 2 and 1/2, rotation, mirror); sampled by TLC simulation, "
+              "two-op paths exhaustively; non-trivial = some pixel must be painted")
+    v.trusted = ["harness render (harness/src/strokefam.rs)", "Curve.tla: exact de Casteljau at t=i/16 with the second-difference deviation bound added to the margin"]
+    scs = []
+    if th:
+        # every two-op path with a curve, subsampled 1 in 60 by position
+        g, scs = gen_scenarios("C08", "Gen_Curve", env={"NOPS": 2, "NVAR": 1, "SALT": seed}, timeout=1200)
+        v.add_tlc(g)
+        scs = scs[seed % 60::60]
+    g, s2 = gen_scenarios("C08", "Gen_Curve", env={"NOPS": 5, "NVAR": 1, "SALT": seed}, simulate=2500 if th else 90, depth=8, seed=seed, workers=1)
+    v.add_tlc(g)
+    scs += s2
+    v.exhaustive = False
+    simple_validate("C08", v, scs, "all", "Trace_Curve", sigfn=lambda sc, tup: {"fam": "curve", "kind": sc.get("kind")}, timeout=3000)
+    v.samples = [scs[0], scs[-1]]
+    return v.finish()
